@@ -33,7 +33,6 @@ int main(int argc, char** argv) {
     bool th = a.get("tier", "quick") != "quick";
     for (auto& type : gen::all_types()) {
         for (int pathlen : (type == "p2tr-script" ? (th ? std::vector<int>{0, 1, 2, 3, 4, 7} : std::vector<int>{0, 1, 2, 4}) : std::vector<int>{1})) for (bool annex : (gen::is_taproot_type(type) ? std::vector<bool>{false, true} : std::vector<bool>{false})) {
-            if (type == "p2tr-key" && annex) continue;   // key-path + annex is a listed C03 finding (annex left on the stack)
             gen::Shape sh; sh.nin = gen::is_taproot_type(type) ? 1 : 2; sh.pos = sh.nin - 1; sh.fund_vout = 1; sh.nout = 2;
             gen::Spend S = gen::make_spend(type, sh, 1, pathlen, annex);
             emit(type + (type == "p2tr-script" ? " path=" + std::to_string(pathlen) : "") + (annex ? " annex" : ""), S.fund, S.tx, F_STANDARD);
